@@ -24,6 +24,7 @@ class Tracer:
         self.next_mark_maxdepth = 0
         self.aborts = 0            # BlockAbortedException origins
         self.steps = 0             # repository function entries since reset_scan()
+        self.scan_states = None    # when a set: abstract scanner transitions (caller, quote, depth, mark kind)
         self.budget = None         # when set: raise StepBudgetExceeded beyond it
 
     def start(self):
@@ -77,6 +78,31 @@ class Tracer:
             return sys.monitoring.DISABLE
         if code.co_qualname == "Splitter._next_mark":
             self.next_mark_depth -= 1
+            if self.scan_states is not None and self.next_mark_depth == 0:
+                self._abstract(retval)
+
+    def _abstract(self, mark):
+        """(scanner function, quote open?, brace depth capped at 3, kind of mark delivered) taken from
+        the frame of the scanner that asked for the mark.  Evidence only: if the internals are renamed
+        the abstraction degrades to (function, ?, ?, kind)."""
+        try:
+            f = sys._getframe(3)      # 0=_abstract 1=_py_return 2=_next_mark 3=the scanner that called it
+            loc = f.f_locals
+            q = loc.get("currently_quote_escaped", "?")
+            d = loc.get("num_open_curls", loc.get("num_additional_brackets", "?"))
+            if isinstance(d, int):
+                d = min(d, 3)
+            dq = loc.get("num_open_curls_in_quote", 0)
+            if isinstance(dq, int):
+                dq = min(dq, 2)
+            if mark is None:
+                kind = "EOF"
+            else:
+                g = mark.group(0)
+                kind = "@" if g.startswith("@") else g
+            self.scan_states.add(f"{f.f_code.co_name}|q={q}|d={d}|dq={dq}|{kind}")
+        except Exception:
+            self.scan_states.add("abstraction-unavailable")
 
     def _py_unwind(self, code, off, exc):
         if code.co_filename.startswith(self.pkg) and code.co_qualname == "Splitter._next_mark":
